@@ -21,6 +21,7 @@ from pyvc.proxies import And, Or, Not, Implies, SBool, SInt, SStr, Len
 from pyvc import regex, core
 
 LEVEL = "other"
+STANDIN_ALWAYS_THOROUGH = True      # its large bound takes seconds: used at both tiers
 EXPLANATION = ("MIXED. Proved by SMT: L(_ABNF.status_line) equals the RFC 9112 status-line grammar and parse_response_start_line accepts exactly the HTTP/1.x lines of it "
                "(only HTTPInputError otherwise) for every string; split_host_and_port total under every int() outcome. Everything else of the statement - totality of "
                "_parse_header / parse_cookie, parameter round trip, timestamp round trip, url_concat, re_unescape o re.escape, is_valid_ip - is a generator-driven "
